@@ -15,6 +15,7 @@ package c04
 import (
 	"fmt"
 	"math/rand"
+	"os"
 	"regexp"
 	"sort"
 	"strconv"
@@ -60,13 +61,18 @@ func baseHints() *hints {
 }
 
 // pickStart draws the start instant for a walk in zone z and the hints for the expression.
-func (g *gen) pickStart(z *zoneInfo, loc *time.Location) (time.Time, *hints, string) {
+// era: 0 = 2010 .. 2035; otherwise the first of nine years (2096, 2196: around a century year that is not a leap year).
+func (g *gen) pickStart(z *zoneInfo, loc *time.Location, era int) (time.Time, *hints, string) {
 	h := baseHints()
 	var sec int64
 	aim := "random"
+	trans, y0, ny, pTrans, pCorner := z.trans, 2010, 26, 85, 40
+	if era != 0 {
+		trans, y0, ny, pTrans, pCorner = z.transIn(era), era, 9, 40, 70
+	}
 	switch {
-	case len(z.trans) > 0 && g.rng.Intn(100) < 85:
-		tr := z.trans[g.rng.Intn(len(z.trans))]
+	case len(trans) > 0 && g.rng.Intn(100) < pTrans:
+		tr := trans[g.rng.Intn(len(trans))]
 		sec = tr.At - 3*3600 + g.rng.Int63n(6*3600+1)
 		if g.rng.Intn(6) == 0 { // a day or two earlier: the walk reaches the transition by whole days
 			sec = tr.At - int64(g.rng.Intn(3*86400))
@@ -76,15 +82,18 @@ func (g *gen) pickStart(z *zoneInfo, loc *time.Location) (time.Time, *hints, str
 		wallHints(h, time.Unix(tr.At-1, 0).In(loc).Add(-30*time.Minute))
 		wallHints(h, time.Unix(tr.At, 0).In(loc).Add(30*time.Minute))
 		aim = tr.class()
-	case g.rng.Intn(100) < 40:
+	case g.rng.Intn(100) < pCorner:
 		// calendar corners: year ends, leap days, month ends
-		y := 2010 + g.rng.Intn(26)
+		y := y0 + g.rng.Intn(ny)
+		if era != 0 && g.rng.Intn(2) == 0 {
+			y = era + 3 + g.rng.Intn(2) // 2099/2100: the end of the century, the February without a 29th
+		}
 		c := []time.Time{time.Date(y, 12, 31, 23, 59, 30, 0, loc), time.Date(y, 2, 28, 22, 0, 0, 0, loc), time.Date(y, 3, 1, 0, 0, 0, 0, loc),
 			time.Date(y, time.Month(1+g.rng.Intn(12)), 31, 12, 0, 0, 0, loc), time.Date(y, 1, 1, 0, 0, 0, 0, loc)}[g.rng.Intn(5)]
 		sec = c.Unix() - 7200 + g.rng.Int63n(14400)
 	default:
-		a := time.Date(2010, 1, 1, 0, 0, 0, 0, time.UTC).Unix()
-		b := time.Date(2035, 12, 31, 0, 0, 0, 0, time.UTC).Unix()
+		a := time.Date(y0, 1, 1, 0, 0, 0, 0, time.UTC).Unix()
+		b := time.Date(y0+ny-1, 12, 31, 0, 0, 0, 0, time.UTC).Unix()
 		sec = a + g.rng.Int63n(b-a)
 	}
 	ns := int64(0)
@@ -148,13 +157,22 @@ func (g *gen) genRun(thorough bool, dstZones []string) *run {
 			}
 		}
 	}
-	start, h, aim := g.pickStart(z, loc)
+	era := 0
+	if q := g.rng.Intn(100); q < 5 {
+		era = 2096
+	} else if q < 9 {
+		era = 2196
+	}
+	start, h, aim := g.pickStart(z, loc, era)
+	if era != 0 {
+		aim = fmt.Sprintf("era%d:%s", era, aim)
+	}
 	r.Start = start
 	x.Places = g.places(thorough)
 	x.Desc = g.rng.Intn(100) < 70
 	x.Fields = [][]term{}
 	r.Mode = []string{"aimed", "aimed", "dense", "random"}[g.rng.Intn(4)]
-	if g.rng.Intn(100) < 6 {
+	if pSparse := map[bool]int{true: 30, false: 6}[era != 0]; g.rng.Intn(100) < pSparse {
 		// rare or impossible dates: the answer is years away, or the zero time
 		r.Mode = "sparse"
 		h.vals[4] = []int{29, 30, 31, 31}
@@ -183,6 +201,175 @@ func (g *gen) genRun(thorough bool, dstZones []string) *run {
 		r.Steps = 1 + g.rng.Intn(6)
 	}
 	return r
+}
+
+// ---------- staged cases: fixed expressions, zones and start instants run on every invocation ----------
+
+type staged struct {
+	spec  string // six fields (second .. day of week) or a descriptor; read in zone via a TZ= prefix
+	zone  string
+	from  string // RFC 3339
+	steps int
+	note  string
+}
+
+// parseAtom / parseStaged turn the text of a staged expression into the AST (the harness's own fixed inputs only).
+func parseAtom(s string) atom {
+	if n, err := strconv.Atoi(s); err == nil {
+		a := num(n)
+		a.Txt = s
+		return a
+	}
+	return word(s)
+}
+
+func parseStaged(spec, zone string) expr {
+	x := expr{TZ: zone, TZKnown: true, Prefix: "TZ=", Places: sixPlaces, Desc: true, Fields: [][]term{}}
+	if strings.HasPrefix(spec, "@") {
+		x.Form, x.Name = "desc", spec
+		return x
+	}
+	x.Form = "fields"
+	for _, f := range strings.Fields(spec) {
+		var ts []term
+		for _, p := range strings.Split(f, ",") {
+			t := term{A: noAtom, B: noAtom, S: noAtom}
+			rs := strings.SplitN(p, "/", 2)
+			lh := strings.SplitN(rs[0], "-", 2)
+			switch {
+			case rs[0] == "*" && len(rs) == 1:
+				t.K = "star"
+			case rs[0] == "?":
+				t.K = "qmark"
+			case rs[0] == "*":
+				t.K, t.S = "starstep", parseAtom(rs[1])
+			case len(lh) == 1 && len(rs) == 1:
+				t.K, t.A = "one", parseAtom(lh[0])
+			case len(lh) == 1:
+				t.K, t.A, t.S = "from", parseAtom(lh[0]), parseAtom(rs[1])
+			case len(rs) == 1:
+				t.K, t.A, t.B = "range", parseAtom(lh[0]), parseAtom(lh[1])
+			default:
+				t.K, t.A, t.B, t.S = "rstep", parseAtom(lh[0]), parseAtom(lh[1]), parseAtom(rs[1])
+			}
+			ts = append(ts, t)
+		}
+		x.Fields = append(x.Fields, ts)
+	}
+	return x
+}
+
+func stagedRun(c staged) *run {
+	st, err := time.Parse(time.RFC3339, c.from)
+	if err != nil {
+		panic(err)
+	}
+	r := &run{Zone: c.zone, Carry: "same", Steps: c.steps, Mode: "staged:" + c.note, Start: st, X: parseStaged(c.spec, c.zone)}
+	if got := r.X.text(); got != "TZ="+c.zone+" "+c.spec {
+		panic("staged expression does not render back: " + got)
+	}
+	return r
+}
+
+var stagedCases = []staged{
+	// the five-year horizon and the century years that are not leap years
+	{"0 0 0 29 2 *", "UTC", "2099-06-01T00:00:00Z", 2, "4y9m ahead across 2100: must be found (2104-02-29), then 2108"},
+	{"0 0 0 29 2 *", "UTC", "2099-03-01T00:00:00Z", 1, "4y11m29d ahead: must be found"},
+	{"0 0 0 29 2 *", "UTC", "2099-01-15T00:00:00Z", 1, "5y1m ahead: the match or the zero time"},
+	{"0 0 0 29 2 *", "UTC", "2096-03-01T00:00:00Z", 1, "eight years ahead: the zero time (or the match)"},
+	{"0 0 0 29 2 *", "America/New_York", "2199-06-01T00:00:00-04:00", 2, "4y9m ahead across 2200"},
+	{"0 0 0 29 2 *", "Asia/Kolkata", "2199-02-28T23:59:59+05:30", 1, "5y ahead to the second: the match or the zero time"},
+	{"0 0 0 29 2 *", "UTC", "2020-03-01T00:00:00Z", 2, "3y11m ahead"},
+	{"0 30 12 29 2 mon", "Europe/Berlin", "2098-02-20T00:00:00+01:00", 12, "29 February or Mondays (either-day rule) through February 2100"},
+	{"59 59 23 31 12 *", "UTC", "2099-12-31T23:59:58Z", 3, "end of the century"},
+	{"0 0 0 1 1 *", "Australia/Sydney", "2099-12-31T12:00:00+11:00", 2, "new century"},
+	{"0 0 12 * 2 *", "UTC", "2100-02-27T12:00:00Z", 3, "February 2100 has 28 days"},
+	{"0 0 0 * * fri", "UTC", "2099-12-30T00:00:00Z", 2, "2100-01-01 is a Friday"},
+	{"0 0 0 * * wed", "Asia/Tokyo", "2199-12-30T00:00:00+09:00", 2, "2200-01-01 is a Wednesday"},
+	{"0 30 2 * * *", "America/New_York", "2100-03-13T00:00:00-05:00", 3, "spring forward 2100-03-14"},
+	{"0 30 1 * * *", "America/New_York", "2100-11-06T00:00:00-04:00", 3, "fall back 2100-11-07: 01:30 twice"},
+	{"0 0 0 31 4 *", "UTC", "2030-01-01T00:00:00Z", 1, "never: the zero time"},
+}
+
+// ---------- deterministic sweep around the transitions of a zone ----------
+
+// sweepZones: zones whose transitions are not the plain "whole hour, on the hour, not at midnight" kind; the sweep
+// pins down, without randomness, which failure classes the code exhibits there.
+var sweepZones = []string{"Australia/Lord_Howe", "Pacific/Chatham", "America/St_Johns", "Asia/Tehran", "Asia/Beirut", "Africa/Cairo",
+	"America/Sao_Paulo", "America/Asuncion", "America/Santiago", "America/Havana", "Pacific/Apia"}
+
+func uniq(xs []string) []string {
+	seen := map[string]bool{}
+	var out []string
+	for _, x := range xs {
+		if !seen[x] {
+			seen[x] = true
+			out = append(out, x)
+		}
+	}
+	return out
+}
+
+// sweepRuns: for representative transitions of the zone (two of every kind, where kind also says whether the change
+// falls on the first or last day of a month) a fixed family of expressions aimed at the wall-clock readings around
+// the change x start instants before / at / after it.  keep(i) selects a subset (density).
+func sweepRuns(zone string, keep func(i int) bool) []*run {
+	loc := mustLoad(zone)
+	z := zoneOf(zone)
+	perKind := map[string]int{}
+	var out []*run
+	i := 0
+	for _, tr := range z.trans {
+		wb, wa := time.Unix(tr.At-1, 0).In(loc), time.Unix(tr.At, 0).In(loc)
+		kind := tr.class()
+		if wa.Day() == 1 || wb.Day() == 1 {
+			kind += ":first-of-month"
+		}
+		if wa.AddDate(0, 0, 1).Day() == 1 || wb.AddDate(0, 0, 1).Day() == 1 {
+			kind += ":last-of-month"
+		}
+		if perKind[kind] >= 2 {
+			continue
+		}
+		perKind[kind]++
+		it := strconv.Itoa
+		mins := []string{"0", "*"}
+		if wa.Minute() != 0 {
+			mins = append(mins, it(wa.Minute()), it((wa.Minute()+15)%60))
+		} else {
+			mins = append(mins, "30")
+		}
+		if wb.Minute() != 59 {
+			mins = append(mins, it(wb.Minute()))
+		}
+		hours := uniq([]string{it(wb.Hour()), it(wa.Hour()), it((wa.Hour() + 1) % 24), it((wb.Hour() + 23) % 24), "*"})
+		doms := uniq([]string{"*", it(wb.Day()), it(wa.Day()), it(wa.AddDate(0, 0, 1).Day())})
+		months := uniq([]string{"*", it(int(wb.Month())), it(int(wa.Month()))})
+		dows := []string{"*", it(int(wa.Weekday()))}
+		deltas := []int64{-30 * 3600, -9000, -3660, -600, 0, 1799, 3660}
+		for _, mi := range uniq(mins) {
+			for _, h := range hours {
+				for _, d := range doms {
+					for _, mo := range months {
+						for _, dw := range dows {
+							for _, dl := range deltas {
+								i++
+								if !keep(i) {
+									continue
+								}
+								st := time.Unix(tr.At+dl, 0).In(loc)
+								c := staged{spec: "0 " + mi + " " + h + " " + d + " " + mo + " " + dw, zone: zone, from: st.Format(time.RFC3339), steps: 2, note: "sweep:" + kind}
+								r := stagedRun(c)
+								r.Start = st // RFC 3339 cannot tell the two passes of a repeated hour apart by wall clock alone; the instant can
+								out = append(out, r)
+							}
+						}
+					}
+				}
+			}
+		}
+	}
+	return out
 }
 
 // ---------- spec -> code: the enumerated single-term grammar ----------
@@ -341,6 +528,7 @@ func givenField(x *expr, f int) []term {
 	return nil
 }
 
+var reClass = regexp.MustCompile(`^next: ([a-z:\-]+)`)
 var reNum = regexp.MustCompile(`(?:match|expected|although) (-?\d+)`)
 
 // findingKey reduces a rejected run to a stable key naming the failing input class.
@@ -393,39 +581,29 @@ func findingKey(r *run, at int, why string) string {
 	if r.Sched != nil && r.Out.Kind == "every" {
 		return "every:next"
 	}
+	// the failure class is decided by the monitor: "next: <class>[; detail]" with class one of
+	// skipped-earlier-match | result-does-not-match:{month,dom-dow,hour,minute,second} | zero-although-match-exists |
+	// result-not-after-t | result-not-whole-second | result-out-of-range | hang
 	cls := "other"
-	switch {
-	case strings.Contains(why, "did not return"):
-		cls = "no-return"
-	case strings.Contains(why, "earlier match"):
-		cls = "earlier-match-missed"
-	case strings.Contains(why, "zero time although"):
-		cls = "zero-although-match"
-	case strings.Contains(why, "does not match the expression"):
-		cls = "result-does-not-match"
-	case strings.Contains(why, "not after t"):
-		cls = "result-not-after-t"
-	case strings.Contains(why, "whole second"):
-		cls = "result-not-whole-second"
-	case strings.Contains(why, "seven years"):
-		cls = "result-out-of-range"
+	if m := reClass.FindStringSubmatch(why); m != nil {
+		cls = m[1]
 	}
 	// which transitions lie between the start instant and the later of (result, expected answer)?
 	if at < 1 || at > len(r.Nexts) {
 		return "next:" + cls
 	}
 	e := r.Nexts[at-1]
-	from, to := e.T+e2000-86400, e.T+e2000+86400
-	if !e.Zero && !e.Hang && !e.Far && e.R+e2000+86400 > to {
-		to = e.R + e2000 + 86400
+	from, to := e.T-86400, e.T+86400
+	if !e.Zero && !e.Hang && !e.Far && e.R+86400 > to {
+		to = e.R + 86400
 	}
 	if m := reNum.FindStringSubmatch(why); m != nil {
-		if v, err := strconv.ParseInt(m[1], 10, 64); err == nil && v > 0 && v+e2000+86400 > to {
-			to = v + e2000 + 86400
+		if v, err := strconv.ParseInt(m[1], 10, 64); err == nil && v > 0 && v+r.Epoch+86400 > to {
+			to = v + r.Epoch + 86400
 		}
 	}
 	if e.Hang {
-		to = e.T + e2000 + 1830*86400 // the search that never ended could have been anywhere in its five years
+		to = e.T + 1830*86400 // the search that never ended could have been anywhere in its five years
 	}
 	var near []transition
 	for _, tr := range transitionsOf(r.ZT) {
@@ -433,11 +611,9 @@ func findingKey(r *run, at int, why string) string {
 			near = append(near, tr)
 		}
 	}
-	// zone-level classes first (one key per zone: the other zones keep full checking)
-	suffix := ""
-	if cls == "no-return" {
-		suffix = ":hang"
-	}
+	// zone-level classes first (keys <zone class>:<zone>:<failure class>: the other zones, and the other failure
+	// classes of the same zone, keep full checking)
+	suffix := ":" + cls
 	for _, tr := range near {
 		if (tr.After-tr.Before)%3600 != 0 {
 			return "zone-shift-not-multiple-of-1h:" + r.Zone + suffix
@@ -477,6 +653,30 @@ func givenFieldOrNil(x *expr, f int) []term {
 
 func isStar(ts []term) bool {
 	return len(ts) == 1 && (ts[0].K == "star" || ts[0].K == "qmark")
+}
+
+// stagedForm renders a rejected run as a staged case (six fields, TZ= prefix, the start instant of the rejected call):
+// printed with VERIF_C04_KEYCASES=1 to collect one deterministic reproducer per finding key.
+func stagedForm(r *run, at int) string {
+	if at < 1 || at > len(r.Nexts) || r.Out.Kind != "spec" {
+		return ""
+	}
+	spec := r.X.Name
+	if r.X.Form == "fields" {
+		var fs []string
+		for f := 1; f <= 6; f++ {
+			if ts := givenField(&r.X, f); ts != nil {
+				fs = append(fs, strings.ToLower(fieldText(ts)))
+			} else if f <= 3 {
+				fs = append(fs, "0")
+			} else {
+				fs = append(fs, "*")
+			}
+		}
+		spec = strings.Join(fs, " ")
+	}
+	from := time.Unix(r.Nexts[at-1].T, 0).In(mustLoad(r.Zone)).Format(time.RFC3339)
+	return fmt.Sprintf("{%q, %q, %q, 1, %q},", spec, r.Zone, from, "")
 }
 
 // ---------- TLC validation in chunks ----------
@@ -597,6 +797,10 @@ func TestCheck(t *testing.T) {
 	// 3. code -> spec: seeded runs on the real Parse / Next
 	dst := zonesWithTransitions()
 	nRuns := ev.Pick(900, 22000)
+	sweepMode := os.Getenv("VERIF_C04_SWEEP") // "" | "full" (whole family) | "only" (whole family, no seeded runs: to enumerate finding keys)
+	if sweepMode == "only" {
+		nRuns = 0
+	}
 	var runs []*run
 	nextCalls, malformed, skippedHang := 0, 0, 0
 	hungAt := map[string][]int64{}
@@ -629,6 +833,45 @@ func TestCheck(t *testing.T) {
 			e.Nontrivial(r.Text + "|" + r.Zone + "|" + strconv.FormatInt(r.Start.Unix(), 10))
 		}
 	}
+	for _, c := range stagedCases {
+		r := stagedRun(c)
+		r.execute()
+		runs = append(runs, r)
+		nextCalls += len(r.Nexts)
+		e.Nontrivial(r.Text + "|" + r.Zone + "|" + strconv.FormatInt(r.Start.Unix(), 10))
+	}
+	// the deterministic sweep (thorough: one in three of the family; VERIF_C04_SWEEP=full: all of it)
+	sweepN := 0
+	if thorough || sweepMode != "" {
+		stride := 3
+		if sweepMode != "" {
+			stride = 1
+		}
+		for _, zn := range sweepZones {
+			for _, r := range sweepRuns(zn, func(i int) bool { return i%stride == 0 }) {
+				near := 0
+				for _, at := range hungAt[r.Zone] {
+					if d := r.Start.Unix() - at; d > -45*86400 && d < 45*86400 {
+						near++
+					}
+				}
+				if near >= 2 || hangs >= maxHangs {
+					continue
+				}
+				r.execute()
+				for _, n := range r.Nexts {
+					if n.Hang {
+						hungAt[r.Zone] = append(hungAt[r.Zone], r.Start.Unix())
+					}
+				}
+				runs = append(runs, r)
+				nextCalls += len(r.Nexts)
+				sweepN++
+			}
+		}
+	}
+	e.Set("sweep_runs", int64(sweepN))
+	e.Set("staged_cases", int64(len(stagedCases)))
 	e.Set("runs", int64(len(runs)))
 	e.Set("next_calls", int64(nextCalls))
 	e.Set("malformed_expressions", int64(malformed))
@@ -663,6 +906,17 @@ func TestCheck(t *testing.T) {
 	calendarMismatch := 0
 	sort.Slice(rej, func(i, j int) bool { return rej[i].run.Text+rej[i].run.Zone < rej[j].run.Text+rej[j].run.Zone })
 	perKey := map[string]int{}
+	keyCase := map[string]string{}
+	defer func() {
+		var kc []string
+		for k, c := range keyCase {
+			kc = append(kc, "KEYCASE "+k+" "+c)
+		}
+		sort.Strings(kc)
+		for _, l := range kc {
+			fmt.Println(l)
+		}
+	}()
 	defer func() {
 		var ks []string
 		for k, n := range perKey {
@@ -682,6 +936,11 @@ func TestCheck(t *testing.T) {
 		}
 		key := findingKey(v.run, v.at, v.why)
 		perKey[key]++
+		if os.Getenv("VERIF_C04_KEYCASES") != "" {
+			if sf := stagedForm(v.run, v.at); sf != "" && (keyCase[key] == "" || len(sf) < len(keyCase[key])) {
+				keyCase[key] = sf
+			}
+		}
 		rp := v.run.replay()
 		rp["rejected_at_event"] = v.at
 		what := fmt.Sprintf("%s | %q options=%v descriptors=%v zone=%s", v.why, v.run.Text, v.run.X.Places, v.run.X.Desc, v.run.Zone)
